@@ -234,6 +234,39 @@ impl StrGen {
         out.into_iter().map(clip).collect()
     }
 
+    /// atoms with long / multi-byte names after every prefix (alone, nested, in a sentence)
+    pub fn long_names(&self, rng: &mut Rng) -> Vec<String> {
+        const IDENT: &[char] = &['a', 'Z', '9', '0', '_', '-', '１', '９', '一', '二', '三', 'é', 'ß', 'α', '😀', '鸟', '한', 'ー', '٣', 'Ⅷ'];
+        let e = self.fmt.e();
+        let prefixes = [
+            e.atom.prefix_word,
+            e.atom.prefix_variable_independent,
+            e.atom.prefix_variable_dependent,
+            e.atom.prefix_variable_query,
+            e.atom.prefix_interval,
+            e.atom.prefix_operator,
+            e.atom.prefix_placeholder,
+        ];
+        let mut out = vec![];
+        for p in prefixes {
+            let n = rng.range(1, 40);
+            let uniform = rng.chance(1, 2);
+            let c0 = *rng.pick(IDENT);
+            let name: String = (0..n).map(|_| if uniform { c0 } else { *rng.pick(IDENT) }).collect();
+            let atom = format!("{}{}", p, name);
+            out.push(atom.clone());
+            out.push(format!("{}{}", atom, e.sentence.punctuation_judgement));
+            out.push(format!("{}{} {} A{}", e.statement.brackets.0, atom, e.statement.copula_inheritance, e.statement.brackets.1));
+            out.push(format!("{}{}{} {}{}", e.compound.brackets.0, e.compound.connecter_product, e.compound.separator, atom, e.compound.brackets.1));
+            // digits of many kinds after the interval prefix
+            if p == e.atom.prefix_interval {
+                out.push(format!("{}{}", p, "9".repeat(n)));
+                out.push(format!("{}{}", p, "１".repeat(n.min(20))));
+            }
+        }
+        out.into_iter().map(clip).collect()
+    }
+
     /// deep nesting of each bracket kind, terminated and not
     pub fn deep_nesting(&self) -> Vec<String> {
         let e = self.fmt.e();
